@@ -12,6 +12,8 @@
 (*   R  step = session_state["step"]   read the clock  (top of run_step)   *)
 (*   W  session_state["step"] = ...    log result, advance the clock       *)
 (*   U  instance.unlock()              release                             *)
+(*   S  copy of the session state      snapshot for the external store     *)
+(*   P  adapter writes the snapshot    the store now holds the snapshot    *)
 (*   D  Response.close()               the WSGI server closes a streamed   *)
 (*                                     response after its last chunk       *)
 (* Request kinds: "step" (run-step), "steps" (run-steps, N steps),         *)
@@ -29,6 +31,7 @@ CONSTANTS Reqs,        \* request ids
           Abort,       \* [Reqs -> 0..] : a stream client goes away after that many results (0 = never)
           N,           \* steps asked by a "steps" request
           Stop,        \* stop time of the session (the clock starts at 1)
+          Store,       \* BOOLEAN: the server has an external state adapter (every stepping request externalises the session)
           Dev
 
 VARIABLES lock,        \* the advisory lock flag of the session
@@ -39,10 +42,12 @@ VARIABLES lock,        \* the advisory lock flag of the session
           got,         \* request -> Seq of clock values in its response
           left,        \* request -> steps still to do ("steps"/"step")
           holds,       \* request -> it believes it holds the lock
+          snap,        \* request -> clock value in the copy of the session it took for the store
+          stored,      \* clock value of the session as the external store has it
           sched        \* history: the schedule (sequence of request ids)
 
-vars == <<lock, clock, log, pc, loc, got, left, holds, sched>>
-core == <<lock, clock, log, pc, loc, got, left, holds>>
+vars == <<lock, clock, log, pc, loc, got, left, holds, snap, stored, sched>>
+core == <<lock, clock, log, pc, loc, got, left, holds, snap, stored>>
 
 Err(r) == Kind[r] = "err"
 AfterLock(r) == IF Err(r) THEN "unlock" ELSE "read"       \* a request with a bad body fails right after taking the lock
@@ -54,62 +59,78 @@ Init == /\ lock = FALSE /\ clock = 1 /\ log = <<>>
         /\ loc = [r \in Reqs |-> 0] /\ got = [r \in Reqs |-> <<>>]
         /\ left = [r \in Reqs |-> IF Kind[r] = "steps" THEN N ELSE 1]
         /\ holds = [r \in Reqs |-> FALSE] /\ sched = <<>>
+        /\ snap = [r \in Reqs |-> 0] /\ stored = 1          \* begin-session externalised the fresh session
 
-Did(r) == sched' = Append(sched, r)
+\* the schedule: which request took the step, and whether the implementation has a scheduling point for it ("x") or the step
+\* is a part of the previous one there ("-": the loop-exit test, the write that does not happen at the stop time, a rejection)
+DidT(r, tag) == sched' = Append(sched, <<r, tag>>)
+Did(r) == DidT(r, "x")
 
 \* intended: atomic test-and-set
 TryLock(r) == /\ pc[r] = "try" /\ Kind[r] # "save"
               /\ IF lock THEN pc' = [pc EXCEPT ![r] = "refused"] /\ UNCHANGED <<lock, holds>>
                          ELSE lock' = TRUE /\ holds' = [holds EXCEPT ![r] = TRUE] /\ pc' = [pc EXCEPT ![r] = AfterLock(r)]
-              /\ UNCHANGED <<clock, log, loc, got, left>> /\ Did(r)
+              /\ UNCHANGED <<clock, log, loc, got, left, snap, stored>> /\ Did(r)
 \* a bad body detected before the lock is touched: the request ends without any effect
 Early(r) == /\ Err(r) /\ pc[r] \in {"try", "check"}
             /\ pc' = [pc EXCEPT ![r] = "done"]
-            /\ UNCHANGED <<lock, clock, log, loc, got, left, holds>> /\ Did(r)
+            /\ UNCHANGED <<lock, clock, log, loc, got, left, holds, snap, stored>> /\ DidT(r, "-")
 \* GET /save-state arriving while stepping requests are in progress: it externalises every instance and touches neither the
-\* lock nor the clock of the live session
+\* lock nor the clock of the live session (copy and write taken as one step)
 SaveReq(r) == /\ Kind[r] = "save" /\ pc[r] \in {"try", "check"}
               /\ pc' = [pc EXCEPT ![r] = "done"]
-              /\ UNCHANGED <<lock, clock, log, loc, got, left, holds>> /\ Did(r)
+              /\ stored' = IF Store THEN clock ELSE stored
+              /\ UNCHANGED <<lock, clock, log, loc, got, left, holds, snap>> /\ Did(r)
 \* deviation: check now, lock later (or never, for run-step)
 Check(r) == /\ pc[r] = "check" /\ Kind[r] # "save"
             /\ pc' = [pc EXCEPT ![r] = IF lock THEN "refused" ELSE IF Locks(r) THEN "take" ELSE "read"]
-            /\ UNCHANGED <<lock, clock, log, loc, got, left, holds>> /\ Did(r)
+            /\ UNCHANGED <<lock, clock, log, loc, got, left, holds, snap, stored>> /\ Did(r)
 Take(r) == /\ pc[r] = "take" /\ lock' = TRUE /\ holds' = [holds EXCEPT ![r] = TRUE]
            /\ pc' = [pc EXCEPT ![r] = AfterLock(r)]
-           /\ UNCHANGED <<clock, log, loc, got, left>> /\ Did(r)
+           /\ UNCHANGED <<clock, log, loc, got, left, snap, stored>> /\ Did(r)
 
 Aborted(r) == Kind[r] = "stream" /\ Abort[r] > 0 /\ Len(got[r]) >= Abort[r]
 More(r) == IF Kind[r] = "stream" THEN clock <= Stop /\ ~Aborted(r) ELSE left[r] > 0
 AfterLoop(r) == IF holds[r] THEN "unlock" ELSE "done"
+\* Externalising the session: intended - while the request still holds the lock, so that the store never receives an older
+\* session after a newer one.  Deviation D19c: the multi-step requests release the lock first and externalise afterwards.
+SaveLate(r) == "D19c_save_after_unlock" \in Dev /\ Kind[r] # "step"
+End(r) == IF Kind[r] = "stream" /\ ~Aborted(r) THEN "close" ELSE "done"
+AfterSteps(r) == IF Store /\ ~SaveLate(r) THEN "snap" ELSE AfterLoop(r)
 \* top of an iteration: loop condition, then run_step reads the clock
 Read(r) == /\ pc[r] = "read"
            /\ IF More(r) THEN loc' = [loc EXCEPT ![r] = clock] /\ pc' = [pc EXCEPT ![r] = "write"]
-                         ELSE UNCHANGED loc /\ pc' = [pc EXCEPT ![r] = AfterLoop(r)]
-           /\ UNCHANGED <<lock, clock, log, got, left, holds>> /\ Did(r)
+                         ELSE UNCHANGED loc /\ pc' = [pc EXCEPT ![r] = AfterSteps(r)]
+           /\ UNCHANGED <<lock, clock, log, got, left, holds, snap, stored>> /\ DidT(r, IF More(r) THEN "x" ELSE "-")
+\* the copy of the session state that will be written, and the write
+Snap(r) == /\ pc[r] = "snap" /\ snap' = [snap EXCEPT ![r] = clock] /\ pc' = [pc EXCEPT ![r] = "put"]
+           /\ UNCHANGED <<lock, clock, log, loc, got, left, holds, stored>> /\ Did(r)
+Put(r) == /\ pc[r] = "put" /\ stored' = snap[r]
+          /\ pc' = [pc EXCEPT ![r] = IF SaveLate(r) THEN (IF Kind[r] = "stream" /\ ~Aborted(r) THEN "close" ELSE "done") ELSE AfterLoop(r)]
+          /\ UNCHANGED <<lock, clock, log, loc, got, left, holds, snap>> /\ Did(r)
 \* run_step logs the result under the clock value it read and advances the clock from that value
 Write(r) == /\ pc[r] = "write"
             /\ IF loc[r] > Stop THEN UNCHANGED <<clock, log, got>>           \* "Stoptime reached": nothing produced
                ELSE /\ clock' = loc[r] + 1 /\ log' = Append(log, loc[r]) /\ got' = [got EXCEPT ![r] = Append(@, loc[r])]
             /\ left' = [left EXCEPT ![r] = @ - 1]
             /\ pc' = [pc EXCEPT ![r] = "read"]
-            /\ UNCHANGED <<lock, loc, holds>> /\ Did(r)
+            /\ UNCHANGED <<lock, loc, holds, snap, stored>> /\ DidT(r, IF loc[r] > Stop THEN "-" ELSE "x")
 Unlock(r) == /\ pc[r] = "unlock"
              /\ IF Kind[r] = "stream" /\ "D14a_stream_no_unlock" \in Dev /\ ~Aborted(r)
                 THEN UNCHANGED lock                      \* deviation: only the except branch unlocks
                 ELSE lock' = FALSE
              /\ holds' = [holds EXCEPT ![r] = FALSE]
-             /\ pc' = [pc EXCEPT ![r] = IF Kind[r] = "stream" /\ ~Aborted(r) THEN "close" ELSE "done"]
-             /\ UNCHANGED <<clock, log, loc, got, left>> /\ Did(r)
+             /\ pc' = [pc EXCEPT ![r] = IF Store /\ SaveLate(r) /\ ~Err(r) THEN "snap" ELSE End(r)]
+             /\ UNCHANGED <<clock, log, loc, got, left, snap, stored>> /\ Did(r)
 \* a stream that ran to its end: the response is closed by the server some time after the generator has ended (and released
 \* the lock) - other requests may have been accepted in between.  Closing releases nothing: the lock is not this request's
 \* any more.  Deviation D14c: an on-close callback unlocks once more, whoever holds the lock by then.
 Close(r) == /\ pc[r] = "close"
             /\ lock' = IF "D14c_close_unlocks" \in Dev THEN FALSE ELSE lock
             /\ pc' = [pc EXCEPT ![r] = "done"]
-            /\ UNCHANGED <<clock, log, loc, got, left, holds>> /\ Did(r)
+            /\ UNCHANGED <<clock, log, loc, got, left, holds, snap, stored>> /\ Did(r)
 
-Step(r) == TryLock(r) \/ SaveReq(r) \/ Early(r) \/ Check(r) \/ Take(r) \/ Read(r) \/ Write(r) \/ Unlock(r) \/ Close(r)
+Step(r) == TryLock(r) \/ SaveReq(r) \/ Early(r) \/ Check(r) \/ Take(r) \/ Read(r) \/ Write(r) \/ Snap(r) \/ Put(r) \/ Unlock(r) \/ Close(r)
 Next == \E r \in Reqs : Step(r)
 Spec == Init /\ [][Next]_vars
 
@@ -128,10 +149,12 @@ NoDup == \A i, j \in 1..Len(log) : i # j => log[i] # log[j]
 ClockExact == Quiescent => clock = 1 + Len(log)
 \* (5) the lock is released whenever the requests have ended
 Released == Quiescent => lock = FALSE
+\* (6) when the requests have ended the external store holds the session as it is (nothing acknowledged is missing from it)
+StoreCurrent == (Store /\ Quiescent) => stored = clock
 \* a refused request produced nothing
 RefusedNothing == \A r \in Reqs : (pc[r] = "refused" \/ Err(r)) => got[r] = <<>>
 
 View == core
-Outcome == [sched |-> sched, pc |-> pc, got |-> got, clock |-> clock, lock |-> lock, log |-> log]
+Outcome == [sched |-> sched, pc |-> pc, got |-> got, clock |-> clock, lock |-> lock, log |-> log, stored |-> stored]
 Emit == Quiescent => PrintT(ToJson(Outcome))
 =============================================================================
